@@ -905,6 +905,8 @@ Fixpoint subst_tinstr (lv : nat) (locals : list nid) (t : tinstr) : tinstr :=
   | TFold fid init args => TFold fid init (so <$> args)
   | TCutoff tg c => TCutoff (so tg) c
   | TExport o => TExport (so o)
+  | TMemoCall m k => TMemoCall m k
+  | TMemoNew f => TMemoNew (subst_bindfn (S lv) locals f)
   | TBind lhs f => TBind (so lhs) (subst_bindfn (S lv) locals f)
   end
 with subst_bindfn (lv : nat) (locals : list nid) (f : bindfn) : bindfn :=
@@ -928,6 +930,40 @@ with subst_bindfn (lv : nat) (locals : list nid) (f : bindfn) : bindfn :=
                       end) ts)
   end.
 
+Fixpoint assoc_find (k : Z) (l : list (Z * nid)) : option nid :=
+  match l with
+  | [] => None
+  | (k', n) :: l' => if bool_decide (k' = k) then Some n else assoc_find k l'
+  end.
+Definition assoc_set (k : Z) (n : nid) (l : list (Z * nid)) : list (Z * nid) :=
+  (k, n) :: filter (fun kn => kn.1 <> k) l.
+
+(* state.weak_memoize_fn(f) (public.rs:342): remembers the current scope *)
+Definition memo_new (f : bindfn) : M unit :=
+  match f with
+  | BindFn _ [(body, r)] => modify (fun s => s <| memos := memos s ++ [Memo (cur_scope s) body r []] |>)
+  | _ => panic (PModelGap 52)
+  end.
+
+(* storage.get(&i).upgrade() (public.rs:360-366) *)
+Definition memo_lookup (mm : memo) (key : Z) : M (option nid) :=
+  match assoc_find key (m_table mm) with
+  | Some n => x <- get_node n ;; ret (if n_live x then Some n else None)
+  | None => ret None
+  end.
+(* storage.insert(i, val.weak()) *)
+Definition memo_store (m : nat) (key : Z) (n : nid) : M unit :=
+  modify (fun s => s <| memos := alter (fun mm => mm <| m_table := assoc_set key n (m_table mm) |>) m (memos s) |>).
+(* State::within_scope (state.rs:112): the old scope is not restored when f panics *)
+Definition within_scope {A} (sc : scope) (f : M A) : M A :=
+  ok <- scope_is_valid sc ;;
+  (if ok : bool then ret tt else panic PInvalidScope) ;;;
+  old <- gets cur_scope ;;
+  modify (fun s => s <| cur_scope := sc |>) ;;;
+  r <- f ;;
+  modify (fun s => s <| cur_scope := old |>) ;;;
+  ret r.
+
 Definition resolve (locals : list nid) (o : operand) : M nid :=
   match o with
   | OOuter n => ret n
@@ -937,10 +973,14 @@ Definition resolve (locals : list nid) (o : operand) : M nid :=
   | OForeign => panic (PModelGap 23)
   end.
 
-(* run one template: the body of a bind closure.  [lhsv] is the left-hand value. *)
-Definition instantiate (lhsv : val) (body : list tinstr) (r : operand) : M (option nid) :=
-  let cap := as_int lhsv in
-  locals <- foldM (fun locals t =>
+(* run one template: the body of a bind closure ([lhsv] is the left-hand value) or of a memoised
+   function ([lhsv] is the key).  Memoised calls (public.rs:342-375) recurse into templates. *)
+Fixpoint instantiate (fuel : nat) (lhsv : val) (body : list tinstr) (r : operand) : M (option nid) :=
+  match fuel with
+  | O => out_of_fuel
+  | S f =>
+    let cap := as_int lhsv in
+    locals <- foldM (fun locals t =>
       n <- match t with
            | TConst v => create_node (KConst (VInt v))
            | TConstLhs => create_node (KConst lhsv)
@@ -956,12 +996,36 @@ Definition instantiate (lhsv : val) (body : list tinstr) (r : operand) : M (opti
                 end)
            | TCutoff tg c => n <- resolve locals tg ;; upd_node n (fun x => x <| n_cutoff := c |>) ;;; ret n
            | TExport o => n <- resolve locals o ;; modify (fun s => s <| exports := exports s ++ [n] |>) ;;; ret n
-           | TBind lhs f => l <- resolve locals lhs ;; create_bind l (subst_bindfn 0 locals f)
+           | TMemoCall m k => memo_call f m (match k with Some k => k | None => cap end)
+           | TMemoNew fn => memo_new (subst_bindfn 0 locals fn) ;;; ret 0%nat
+           | TBind lhs fn => l <- resolve locals lhs ;; create_bind l (subst_bindfn 0 locals fn)
            end ;;
-      ret (match t with TCutoff _ _ | TExport _ => locals | _ => locals ++ [n] end))
+      ret (match t with TCutoff _ _ | TExport _ | TMemoNew _ => locals | _ => locals ++ [n] end))
     body [] ;;
-  (* None: the closure returned a node of another state *)
-  match r with OForeign => ret None | _ => n <- resolve locals r ;; ret (Some n) end.
+    (* None: the closure returned a node of another state *)
+    match r with OForeign => ret None | _ => n <- resolve locals r ;; ret (Some n) end
+  end
+with memo_call (fuel : nat) (m : nat) (key : Z) : M nid :=
+  match fuel with
+  | O => out_of_fuel
+  | S f =>
+    s <- get ;;
+    match memos s !! m with
+    | None => panic (PModelGap 50)
+    | Some mm =>
+      found <- memo_lookup mm key ;;
+      match found with
+      | Some n => ret n
+      | None =>
+        r <- within_scope (m_scope mm)
+               (user_call ;;; emit (EvMemoFn m key) ;;; instantiate f (VInt key) (m_body mm) (m_ret mm)) ;;
+        match r with
+        | None => panic (PModelGap 51)
+        | Some n => memo_store m key n ;;; ret n
+        end
+      end
+    end
+  end.
 
 (* ------------------------------------------------------------ recompute (node.rs:590-779) *)
 Definition unwrap_value (n : nid) (site : Z) : M val :=
@@ -1034,7 +1098,7 @@ Definition recompute_one (fuel : nat) (n : nid) : M (option nid) :=
       rhs <- (match bf_templates (b_fn bd) with
               | [] => panic (PModelGap 30)
               | ts => match ts !! (Z.to_nat (as_int lhsv `mod` zlen ts)) with
-                      | Some (body, r) => instantiate lhsv body r
+                      | Some (body, r) => instantiate fuel lhsv body r
                       | None => panic (PModelGap 31)
                       end
               end) ;;
